@@ -71,7 +71,9 @@ def registryLine (family : String) (a : List String) (impl : String) : Verdict :
         let got := if l == "-" then [] else l.splitOn ";"
         let want := if ids == "-" then [] else ids.splitOn ";"
         -- every registered pair exactly once (orientation as stored)
-        if nle then
+        -- a page size of 0 makes no progress (the property speaks of walking with a page size); more than 200 pages
+        -- is the harness' own cap
+        if nle && lim != "0" && want.length ≤ 200 then
           chk "C19" "the walk does not visit every registered pair exactly once"
             (got.length == want.length && want.all (fun p => got.any (sameSet p)) )
         else []
